@@ -3,7 +3,11 @@ package protocol
 // C08 — packet boundaries come from length fields, not from transport segmentation.
 // C10 — no client input can panic (readHeader / readMessage part).
 
-import "strconv"
+import (
+	"errors"
+	"io"
+	"strconv"
+)
 
 // vpStream builds k well-framed packets with symbolic types and bodies (each body 0..bmax bytes).
 func vpStream(k, bmax int) (pkts [][]byte, types []uint16, bodies [][]byte) {
@@ -112,6 +116,29 @@ func VP_C08_segments() {
 	segs = append(segs, stream[last:])
 	tr := &vpTransport{in: segs}
 	vpExpectPackets(tr, types, bodies, "segments")
+}
+
+//vp:property C08
+//vp:set k 2 3
+//vp:set bmax 1 2
+//vp:bounds the byte stream of k packets (symbolic types, bodies 0..bmax bytes) in one read or cut at any one position; the LAST read reports the end of the stream (io.EOF) or a transport failure TOGETHER with its bytes (n > 0 and err != nil), as the legacy transport does when the terminating HTTP chunk is already buffered behind the last packet
+//vp:assume io.Reader contract: a Read may return n > 0 and a non-nil error; callers process the n bytes before considering the error
+func VP_C08_error_with_last_bytes() {
+	pkts, types, bodies := vpStream(vpParam("k"), vpParam("bmax"))
+	var stream []byte
+	for _, p := range pkts {
+		stream = append(stream, p...)
+	}
+	segs := [][]byte{stream}
+	if vpBool("cut-once") {
+		c := vpIntRange("cut", 1, len(stream)-1)
+		segs = [][]byte{stream[:c:c], stream[c:]}
+	}
+	tr := &vpTransport{in: segs, errWithLast: io.EOF}
+	if vpBool("failure-instead-of-eof") {
+		tr.errWithLast = errors.New("vp: malformed chunked encoding")
+	}
+	vpExpectPackets(tr, types, bodies, "lastread")
 }
 
 //vp:property C08 C06 C10
